@@ -53,18 +53,19 @@ MANIFEST = {
             "executable loop model used by the correspondence runs, together with the absence of index panics in that loop; (5) renderer index "
             "arithmetic on line ranges: LineRange.Expand (JSON) returns First..Last for in-file ranges and is total for every range (an inverted "
             "one yields [First], fix 5f804fb), the console loop prints every line of an in-file range and never indexes outside for any range. Tie: forest-level correspondence of the real "
-            "parser (both modes) + entries/routing correspondence against the real discovery/GetChecksForEntry + LineRange.Expand correspondence. "
+            "parser (both modes) + entries/routing correspondence against the real discovery/GetChecksForEntry + LineRange.Expand and InjectDiagnostics (printed lines) correspondence. "
             "Runtime remainder (panics, hangs, unrenderable reports, line ranges computed by the individual checks) is searched for, not proved: the "
             "real in-process pipeline (strict/relaxed x prometheus/thanos, console/JSON/checkstyle/TeamCity renderers) and the real pint binary run "
             "on every file of a stream made of the repository's YAML fixtures, testscript bodies and fuzz seeds, structure-aware generated "
             "documents with per-field defects, anchors/aliases/merge keys, YAML-in-YAML wrappers and byte/line mutations (CR/CRLF, tabs, "
             "non-UTF-8, truncation, token lines, pint comments).",
     "note": "Coq 8.16.1 kernel+VM, no axioms; hand models validated by differential execution on every run; crash/hang/renderability and the "
-            "line ranges built by individual checks are testing under timeout, labelled partial; one open known finding: C02-lone-cr (yaml.v3 "
-            "counts a lone CR / NEL / LS / PS as a line break, pint does not: line numbers beyond the file - exactly the class where the "
-            "hypothesis docs_fit of theorem (4) fails on real input; the crashes it caused are fixed by f44c1ab and 5f804fb). Fixed upstream "
-            "after being found here: implicit null after EOF (5430596), JSON makeslice panic (5f804fb), alias fan-out hang (2108dfa, modelled: "
-            "documents unfolding to more than 10^6 nodes are refused in both modes).",
+            "line ranges built by individual checks are testing under timeout, labelled partial; four open known findings, each with a class "
+            "predicate, witness and (except the first) a tested candidate patch: C02-lone-cr (yaml.v3 counts lone CR / NEL / LS / PS as line "
+            "breaks: line numbers beyond the file), C02-yaml-error-after-eof (yaml syntax errors at the end of the input are reported on the "
+            "line after the last one) - these two are exactly where the hypothesis docs_fit / yerr of theorem (4) fails on real input - "
+            "C02-nested-alias-fanout (alias bomb inside a literal block scalar hangs relaxed mode) and C02-promql-paren-literal (panic in "
+            "utils/source.go on label_replace / count_values with a parenthesised string literal).",
     "technique": "Coq theorems over Gallina parser/routing/position-lines/render models + forest, entry and Expand correspondence + "
                  "execution-based crash detector (in-process pipeline and real binary, four renderers)",
 }
